@@ -43,7 +43,7 @@ def run(ctx):
             f.write(json.dumps(r) + "\n")
 
     # 4. Go harness on /repo's working tree
-    ov = ctx.harness_overlay("tm/tmconsensus")
+    ov = ctx.harness_overlay("tm/tmconsensus", only=("zz_verif_c18",))
     out, trace = ctx.path("out.ndjson"), ctx.path("trace.ndjson")
     env = {"VERIF_IN": tin, "VERIF_OUT": out, "VERIF_TRACE": trace, "VERIF_SEED": str(ctx.seed),
            "VERIF_PREFIX": str(1 << 20 if quick else 1 << 24), "VERIF_RANDOM": str(200000 if quick else 3000000),
